@@ -997,7 +997,7 @@ class Config:  # pylint: disable=too-many-instance-attributes
         """
         if self.__keyfile:
             return self.__keyfile.filename
-        if self._parent:
+        if self._parent is not None:
             return self._parent._key_filename
         return Config.DEFAULT_CINCOKEY_FILEPATH
 
@@ -1019,7 +1019,7 @@ class Config:  # pylint: disable=too-many-instance-attributes
         """
         if self.__keyfile:
             return self.__keyfile
-        if self._parent:
+        if self._parent is not None:
             # This will bubble up to the root config. The result is not stored: the key file is
             # looked up again on every use so that a later change of an ancestor's key file, or a
             # new parent, takes effect.
@@ -1240,7 +1240,7 @@ class Config:  # pylint: disable=too-many-instance-attributes
         """
         :returns: the full reference path to the configuration
         """
-        if self._parent:
+        if self._parent is not None:
             root = self._parent._ref_path
         elif self._schema._schema:
             root = self._schema._schema._ref_path
